@@ -1,6 +1,85 @@
-(** * C14 link algebra (placeholder while the proofs are being written) *)
-From Coq Require Import List NArith Bool.
-From RG Require Import Base.Str Model.Url Model.Href.
+(** * C14 - link algebra: the relative links the site generator writes resolve, by ordinary
+    URL resolution against the page's address, to the page they were computed for.
+    (The site-level part of C14 - which links are written where, reachability - is stated
+    on top of these in the site model.)  Model: Model/Href.v, Model/Url.v; proofs:
+    Proofs/Href.v, Proofs/HrefQuote.v.
+
+    Page addresses are [path_of segs] = "/" ++ "/".join(segs).  [seg_ok]: a segment is
+    non-empty, is not "." or "..", contains no "/" - every other character is allowed
+    (hash, question mark, per cent, colon, ampersand, quotes, space, any Unicode scalar value).  The source page is [/fd.../ff]
+    (directory segments [fd], file name [ff]), the target is [/ts...].
+    [is_prefix ts fd = false]: the target is not one of the directories that contain the
+    source page (a file and a directory cannot have the same address) - without it
+    [relative] returns ".." or "", which denote a directory, not the target.
+    [url_resolve] is RFC 3986 section 5.2 for path-only references. *)
+From Coq Require Import List NArith Bool Arith String.
+From RG Require Import Base.Str Model.Url Model.Href Proofs.Href Proofs.HrefQuote.
 Import ListNotations.
-Example C14_examples : url_resolve [47;97;47;98]%N (href_relative [47;97;47;98]%N [47;99]%N) = [47;99]%N.
-Proof. vm_compute. reflexivity. Qed.
+Local Notation length := List.length (only parsing).
+
+(** Path level: resolving [relative(from, to)] against [from] gives [to]. *)
+Theorem C14_relative_correct : forall (fd : list str) (ff : str) (ts : list str),
+  forallb seg_ok (fd ++ [ff]) = true -> forallb seg_ok ts = true -> is_prefix ts fd = false ->
+  url_resolve (path_of (fd ++ [ff])) (href_relative (path_of (fd ++ [ff])) (path_of ts)) = path_of ts.
+Proof. exact relative_correct. Qed.
+Print Assumptions C14_relative_correct.
+
+(** Percent-coding round trip for every string of Unicode scalar values. *)
+Theorem C14_quote_roundtrip : forall s : str, valid_scalars s = true -> unquote (quote s) = s.
+Proof. exact quote_roundtrip. Qed.
+Print Assumptions C14_quote_roundtrip.
+
+(** What [relative_url] writes is a path-only reference for any URL parser: only
+    unreserved characters, "/" and well-formed %XX escapes - no scheme, query or fragment
+    can be read into it, whatever characters the names contain. *)
+Theorem C14_quoted_is_path_only : forall from_href to_href : str,
+  valid_scalars (href_relative from_href to_href) = true ->
+  path_only_ref (href_relative_url from_href to_href) = true.
+Proof. intros f t H. unfold href_relative_url. apply quote_path_only. exact H. Qed.
+Print Assumptions C14_quoted_is_path_only.
+
+(** URL level: the link [relative_url(from, to)] on the page whose address is
+    [quote from] resolves to [quote to], which decodes to [to] - for arbitrary segment
+    characters. *)
+Theorem C14_quoted_relative_correct : forall (fd : list str) (ff : str) (ts : list str),
+  forallb valid_scalars (fd ++ [ff]) = true -> forallb valid_scalars ts = true ->
+  forallb seg_ok (fd ++ [ff]) = true -> forallb seg_ok ts = true -> is_prefix ts fd = false ->
+  let from_href := path_of (fd ++ [ff]) in
+  let to_href := path_of ts in
+  url_resolve (quote from_href) (href_relative_url from_href to_href) = quote to_href /\
+  unquote (url_resolve (quote from_href) (href_relative_url from_href to_href)) = to_href.
+Proof.
+  intros fd ff ts Vf Vt Hf Ht Hp from_href to_href. subst from_href to_href.
+  rewrite (quoted_relative_correct fd ff ts Vf Vt Hf Ht Hp). split; [reflexivity|].
+  apply quote_roundtrip. unfold path_of.
+  change (47%N :: join slash ts) with (slash ++ join slash ts). rewrite valid_scalars_app.
+  apply andb_true_iff. split; [reflexivity|].
+  clear -Vt. induction ts as [|p ts IH]; [reflexivity|]. cbn [forallb] in Vt.
+  apply andb_true_iff in Vt as [Vp Vt]. destruct ts as [|q ts]; [exact Vp|].
+  rewrite join_cons2, !valid_scalars_app, Vp, (IH Vt). reflexivity.
+Qed.
+Print Assumptions C14_quoted_relative_correct.
+
+(** Why quoting is needed: written unquoted into an href, a name containing "#" is cut at
+    the "#" by the URL parser ([ref_path]) and the link resolves elsewhere. *)
+Theorem C14_relative_unquoted_refuted : exists (fd : list str) (ff : str) (ts : list str),
+  forallb seg_ok (fd ++ [ff]) = true /\ forallb seg_ok ts = true /\ is_prefix ts fd = false /\
+  url_resolve (path_of (fd ++ [ff])) (ref_path (href_relative (path_of (fd ++ [ff])) (path_of ts)))
+    <> path_of ts.
+Proof.
+  exists [[97%N]], [120%N], [[97%N]; [98%N; 35%N; 99%N]].
+  vm_compute. repeat split; try reflexivity. discriminate.
+Qed.
+Print Assumptions C14_relative_unquoted_refuted.
+
+(** Non-vacuity. *)
+Example C14_examples :
+  let fd := [s "foo"%string; s "bar"%string] in
+  let ts := [s "foo"%string; [113; 35; 63; 37; 32; 233; 128512]%N; s "quo.html"%string] in
+  forallb seg_ok (fd ++ [s "baz.html"%string]) = true /\ forallb seg_ok ts = true /\ is_prefix ts fd = false /\
+  forallb valid_scalars ts = true /\
+  href_relative (path_of (fd ++ [s "baz.html"%string])) (path_of ts) = (s "../q#?% "%string ++ [233; 128512; 47]%N ++ s "quo.html"%string) /\
+  href_relative_url (path_of (fd ++ [s "baz.html"%string])) (path_of ts) = s "../q%23%3F%25%20%C3%A9%F0%9F%98%80/quo.html"%string /\
+  href_parent (s "/foo/bar.html"%string) = s "/foo"%string.
+Proof. vm_compute. repeat split; reflexivity. Qed.
+Print Assumptions C14_examples.
